@@ -218,6 +218,20 @@ static int cmp_ctx(const void *a, const void *b, void *c) {
 #define LIB(stmt) do { t.in_op = true; stmt; t.in_op = false; } while (0)
 #define POFF(p) ((p) ? (int64_t)((const uint8_t *)(p) - base) : (int64_t)-1)
 
+// what a caller does with a stream it has just been given, as part of the op: write, flush, close - with yield points
+// in between, so that another task's call can run while this task holds the stream (descriptor numbers are
+// process-wide: a call that closes a descriptor it no longer owns closes somebody else's)
+static int64_t use_stream(Task &t, FILE *f) {
+    t.in_op = true;
+    sim_conflict_point();
+    int w = fputc('x', f);
+    int fl = fflush(f);
+    sim_conflict_point();
+    int c = fclose(f);
+    t.in_op = false;
+    return (w == EOF ? 1 : 0) + (fl != 0 ? 2 : 0) + (c != 0 ? 4 : 0);
+}
+
 void exec_api_op(Task &t, const Op &op, OpResult &r) {
     uint8_t *base = t.arena.base;
     int64_t ret = 0;
@@ -461,7 +475,7 @@ void exec_api_op(Task &t, const Op &op, OpResult &r) {
         LIB(ret = fopen_s(A(2) < 0 ? nullptr : &f, paths[A(0) & 3], modes[A(1) % 5]));
         bool opened = f && f != (FILE *)(uintptr_t)0x1;
         ret = ret * 4 + (opened ? 1 : 0) + (f == nullptr ? 2 : 0);
-        if (opened) { int e = errno; fclose(f); errno = e; }
+        if (opened) { int e = errno; ret = ret * 8 + use_stream(t, f); errno = e; }
         break;
     }
     case FN_freopen_s: {
@@ -473,7 +487,7 @@ void exec_api_op(Task &t, const Op &op, OpResult &r) {
         bool opened = f && f != (FILE *)(uintptr_t)0x1;
         ret = ret * 4 + (opened ? 1 : 0) + (f == nullptr ? 2 : 0);
         int e = errno;
-        if (opened) fclose(f);
+        if (opened) ret = ret * 8 + use_stream(t, f);
         else if (old && A(2) < 0) fclose(old); // untouched: the constraint check came first
         errno = e;
         break;
@@ -483,7 +497,7 @@ void exec_api_op(Task &t, const Op &op, OpResult &r) {
         LIB(ret = tmpfile_s(A(0) < 0 ? nullptr : &f));
         bool opened = f && f != (FILE *)(uintptr_t)0x1;
         ret = ret * 4 + (opened ? 1 : 0) + (f == nullptr ? 2 : 0);
-        if (opened) { int e = errno; fclose(f); errno = e; }
+        if (opened) { int e = errno; ret = ret * 8 + use_stream(t, f); errno = e; }
         break;
     }
     default: break;
